@@ -5,6 +5,7 @@ import (
 	"fmt"
 	"math/rand"
 	"sync"
+	"time"
 
 	corestore "cosmossdk.io/core/store"
 )
@@ -83,6 +84,11 @@ type Wrap struct {
 	rng       *rand.Rand
 	fired     []Fired
 	traceCall bool
+
+	// AsyncWriteDelay delays every non-sync batch Write (not WriteSync) before it is applied:
+	// a write issued from a background goroutine then reaches the store later than a write
+	// the caller did not wait for it with - which is the order a slow disk would produce.
+	AsyncWriteDelay time.Duration
 }
 
 func NewWrap(inner corestore.KVStoreWithBatch) *Wrap {
@@ -354,6 +360,9 @@ func (b *wrapBatch) write(sync bool) error {
 	if sync {
 		err = b.b.WriteSync()
 	} else {
+		if d := b.w.AsyncWriteDelay; d > 0 {
+			time.Sleep(d)
+		}
 		err = b.b.Write()
 	}
 	if err != nil {
